@@ -101,7 +101,7 @@ def impl(line: str) -> str:
             ok_hash = hash(b) == hash(fresh) == hash(other) and (b in {fresh: 1}) and (other in {b})
             return f"{'true' if ok_eq else 'false'} {'true' if ok_hash else 'false'}"
         raise ValueError('bad op ' + op)
-    k, v = guarded(run, 10.0)
+    k, v = guarded(run, 3.0)
     return v if k == 'ok' else 'err:' + v
 
 # ---------------------------------------------------------------- the oracle (property text on bit strings)
